@@ -22,10 +22,10 @@ go build ./... >> $log 2>&1 && go test -count=1 ./... >> $log 2>&1; suite=$?
 if [ $suite -ne 0 ]; then go test -count=1 ./... >> $log 2>&1; suite=$?; fi
 cp $dst/demo_test.go.txt $wt/$pkg/zz_seed_demo_test.go
 echo "== demo with change" >> $log
-go test -count=1 -run 'TestSeedDemo' ./$pkg >> $log 2>&1; demo_with=$?
+go test -count=1 -run 'SeedDemo' ./$pkg >> $log 2>&1; demo_with=$?
 git apply -R $dst/patch.diff
 echo "== demo without change" >> $log
-go test -count=1 -run 'TestSeedDemo' ./$pkg >> $log 2>&1; demo_without=$?
+go test -count=1 -run 'SeedDemo' ./$pkg >> $log 2>&1; demo_without=$?
 rm -f $wt/$pkg/zz_seed_demo_test.go
 echo "suite_with_change_exit=$suite demo_with_change_exit=$demo_with demo_without_change_exit=$demo_without" | tee -a $log
 confirmed=false
